@@ -126,8 +126,8 @@ PROPS = {
     ),
     'C20': dict(
         title='support helpers', proj='proj_full', oracle='c20',
-        quick=[S_('bindcall'), S_('callsig'), S_('makeup')],
-        thorough=[S_('bindcall'), S_('callsig'), S_('makeup')],
+        quick=[S_('bindcall'), S_('callsig'), S_('makeup'), S_('readsig')],
+        thorough=[S_('bindcall'), S_('callsig'), S_('makeup'), S_('readsig', count=60000)],
         runtime_part='regex splitting, str(Signature), compile/exec in s/f/func_from_sig (validated by round trips for all 8 read_sig option combinations, eager and postponed)',
         level_text='bind_callsig = CPython binding (outside the version-dependent case), sort_callsigs partition and make_up_callsigs completeness are theorems '
                    'about the Lean model; the string layer (read_sig / func_code / s / f / func_from_sig) is validated by round trips only (partial).',
